@@ -24,9 +24,9 @@ def build(ctx, rule):
     def is_key_extraction(callee):
         return any(isinstance(r, ast.Return) and isinstance(r.value, ast.Tuple) and len(r.value.elts) >= 4 for r in ast.walk(callee.node))
 
-    from ..core import inline_bool_temps, rotate_primed_loops
+    from ..core import inline_bool_temps, inline_pure_temps, rotate_primed_loops
 
-    for f in [inline_bool_temps(rotate_primed_loops(_ti(repo, f0, keep=is_key_extraction))) for f0 in mod.funcs.values()]:
+    for f in [inline_pure_temps(inline_bool_temps(rotate_primed_loops(_ti(repo, f0, keep=is_key_extraction)))) for f0 in mod.funcs.values()]:
         for n in walk_own(f.node):
             if isinstance(n, ast.Call) and isinstance(n.func, ast.Attribute) and n.func.attr == "sort" and any(k.arg == "key" for k in n.keywords):
                 m.f = f
